@@ -297,13 +297,50 @@ theorem eca_start_slice_eq_time_exclusion (e : List Rat) (h : Rat) (t : List Rat
   simp only [nStart, List.head?_cons]
   exact drop_countP_le_sorted (h + c) (h :: t) hs
 
-/-! ## symmetrisation table -/
+/-! ## N×N matrix -/
 
 /-- entry `[i,j]` of the symmetrised matrix is `op M[i,j] M[j,i]` -/
 theorem symmetrize_entry {α} (n : Nat) (d d' : α) (op : α → α → α) (M : Mat α) (i j : Nat)
     (hi : i < n) (hj : j < n) :
     (symmetrize n d op M).get d' i j = op (M.get d i j) (M.get d j i) := by
   simp [symmetrize, Mat.get, hi, hj]
+
+
+/-- **matrix entries**: after the double loop `for i: for j in range(i+1, N):
+directed[i,j], directed[j,i] = pair(i,j)`, entry `[i,j]` with `i < j` is the first value of
+the pair `(i,j)`, entry `[i,j]` with `j < i` the second value of the pair `(j,i)`, the
+diagonal keeps its initial zero — every off-diagonal entry is written exactly once. -/
+theorem assemble_entry {α} (n : Nat) (z d : α) (pair : Nat → Nat → α × α) (i j : Nat)
+    (hi : i < n) (hj : j < n) :
+    (assemble n z pair).get d i j =
+      if i < j then (pair i j).1 else if j < i then (pair j i).2 else z := by
+  unfold assemble
+  rw [get_fold n d pair (upperPairs n) (fun p hp => (mem_upperPairs n p.1 p.2).1 hp) _
+    (shaped_replicate n z) i j]
+  simp only [mem_upperPairs, get_replicate n z d i j hi hj, hi, hj, and_true]
+
+/-- the ES matrix holds, at `[i,j]` and `[j,i]` (`i < j`), the two return values of
+`event_synchronization(column i, column j)` on the object's time stamps, `taumax`, `lag` -/
+theorem esMatrix_entry (ts : List Rat) (E : Mat Bool) (n : Nat) (tm : Option Rat) (lag : Rat)
+    (i j : Nat) (hij : i < j) (hj : j < n) :
+    (esMatrix ts E n tm lag).get none i j
+        = (esPairEntry (esSeries ts (column E i) ts (column E j) tm lag)).1 ∧
+    (esMatrix ts E n tm lag).get none j i
+        = (esPairEntry (esSeries ts (column E i) ts (column E j) tm lag)).2 := by
+  unfold esMatrix
+  rw [assemble_entry _ _ _ _ i j (by omega) hj, assemble_entry _ _ _ _ j i hj (by omega)]
+  rw [if_pos hij, if_neg (by omega), if_pos hij]
+  exact ⟨rfl, rfl⟩
+
+/-- `event_series_analysis(method='ES', symmetrization=s)`: entry `[i,j]` is the
+symmetrisation applied to the two directed entries `[i,j]` and `[j,i]` -/
+theorem esAnalysis_entry (ts : List Rat) (E : Mat Bool) (n : Nat) (tm : Option Rat) (lag : Rat)
+    (s : Symm) (i j : Nat) (hi : i < n) (hj : j < n) :
+    (esAnalysis ts E n tm lag s).get none i j
+      = esSymmOp s ((esMatrix ts E n tm lag).get none i j) ((esMatrix ts E n tm lag).get none j i) :=
+  symmetrize_entry n none none (esSymmOp s) _ i j hi hj
+
+/-! ## symmetrisation table -/
 
 theorem symmOp_directed (a b : Rat) : symmOp .directed a b = a := rfl
 /-- `symmetric`, `mean`, `max`, `min` give symmetric matrices -/
